@@ -17,7 +17,7 @@ import sympy as sp
 
 from ..groups import group_model
 from ..model import component_model
-from ..symx import SymX, equal
+from ..symx import SymX, equal, lin_expand
 from ..wiring import _promote_list, _strip, level_view
 from .c17 import Acc, _out, _short, check_identity, grav
 from .common import sig_txt
@@ -266,6 +266,32 @@ def w3(chk, repo):
                         continue
                     nodes = a.s("nodes")
                     loc = [s for s in d.free_symbols if s.name.split("[")[0] == "point_mass_locations"]
+                    if isinstance(d, sp.Symbol) and d.name.startswith("opq:obj:"):
+                        # the moment array is assembled piecewise: every piece must depend on the load point
+                        # and on the nodes only through their difference (translation invariance of r x F)
+                        var = d.name[len("opq:obj:"):].split("#")[0]
+                        pieces = [(e2, e2.d.get("val").dom.get("SYMX") if e2.d.get("val") is not None else None) for e2 in r.events if e2.kind == "store" and (e2.d.get("target") or "").startswith(var + "[")]
+                        shift = sp.Symbol("shift", real=True)
+                        t.arrays.add(shift)
+                        badp = None
+                        und = not pieces
+                        for e2, pe in pieces:
+                            if pe is None:
+                                und = True
+                                continue
+                            sub = {s_: s_ + shift for s_ in pe.free_symbols if s_.name.split("[")[0] in ("point_mass_locations", "nodes") or s_.name.startswith(("opq:span_dist", "opq:xyz_dist")) and False}
+                            # derived locals (xyz_dist, span_dist) are differences already: only raw positions shift
+                            moved = lin_expand(pe.subs(sub, simultaneous=True) - pe)
+                            if moved != 0:
+                                badp = (e2, pe, moved)
+                        if badp:
+                            e2, pe, moved = badp
+                            chk.violation("W3", key, "%s:%d" % (c.mod.rel, e2.lineno), "the moment component %s = %s changes by %s when the load point and the nodes are translated together: the arm is not (load point - node)" % (e2.d.get("target"), _short(pe), _short(moved)), algebraic=True)
+                        elif und:
+                            chk.undecided("W3", key, wh, "piecewise moment not extracted", algebraic=True)
+                        else:
+                            chk.undecided("W3", key, wh, "piecewise moment: translation-invariant pieces, cross-product form not verified", algebraic=True)
+                        continue
                     if nodes is None or len(loc) != 1:
                         chk.undecided("W3", key, wh, "arm symbols not found", algebraic=True)
                         continue
